@@ -2240,6 +2240,16 @@ func (p *Parser) evaluateStatement(ctx context) (Statement, error) {
 
 			if err == nil && stmt == nil {
 				stmt, err = p.evaluateExpression(ctx)
+
+				// As in Go, only calls can be used as statements (a literal or a variable alone
+				// has no effect and would result in an empty block in the target script).
+				if err == nil {
+					switch stmt.StatementType() {
+					case STATEMENT_TYPE_FUNCTION_CALL, STATEMENT_TYPE_APP_CALL, STATEMENT_TYPE_COPY, STATEMENT_TYPE_INPUT, STATEMENT_TYPE_READ:
+					default:
+						err = p.atError(fmt.Sprintf("%s is not used", stmt.StatementType()), token)
+					}
+				}
 			}
 		}
 	}
